@@ -12,3 +12,4 @@ open RV.C13
 #print axioms skolemize_into_same_store_is_write
 #print axioms namespaces_exact
 #print axioms view_read_frame
+#print axioms aggregate_reads
